@@ -117,7 +117,10 @@ class World:
                                                 multiclient=mcfg)
             from dznpy.adv_shell import Configuration  # pylint: disable=import-outside-toplevel
             from dznpy.adv_shell.common import FacilitiesOrigin  # pylint: disable=import-outside-toplevel
-            enc = self.encnames.setdefault(mi, ns_ids_t(list(self.models[mi]['encapsulee'])))
+            # REPRESENTATION: the encapsulee name as NamespaceIds (configurations 2, 3), as a dotted string (0), as a
+            # list of identifiers (1) - all forms the builder accepts
+            ids = list(self.models[mi]['encapsulee'])
+            enc = self.encnames.setdefault((mi, ci), '.'.join(ids) if ci == 0 else (ids if ci == 1 else ns_ids_t(ids)))
             self.cfgs[(mi, ci)] = Configuration(
                 dezyne_filename=self.models[mi]['file'], ast_fc=self.fcts[mi], output_basename_suffix=d['suffix'],
                 fqn_encapsulee_name=enc, ports_cfg=self.portscfgs[pkey],
